@@ -111,7 +111,9 @@ ValuesOf(S, cs) == [k \in 1..Len(cs) |-> S.heap[cs[k]]]
 NewT(S, shape, ctor, et) ==
     LET n     == Prod(shape)
         start == Len(S.heap) + 1
-        ord   == IF ctor = "C" THEN "C" ELSE "F"
+        (* "Cpre" / "Fpre": the same tensors with the construction options given in another order (backing, or the
+           column-major declaration, BEFORE the shape): the order of options is not part of any statement *)
+        ord   == IF ctor \in {"C", "Cpre"} THEN "C" ELSE "F"
         init  == [i \in 1..n |-> Cell(start + i - 1)]
         (* Fconv: logical element k (row-major) is input element k; its storage is not specified *)
         cells == IF ctor = "Fconv" THEN [k \in 1..n |-> start + k - 1]
